@@ -28,13 +28,31 @@ pub fn j_text(v: i128, out: &mut Local) {
         let parsed = Duration::from_str(&shown).map(|p| p.to_parts());
         let json = serde_json::to_string(&d).map_err(|e| e.to_string());
         let back: Result<(i16, u64), String> = json.clone().and_then(|j| serde_json::from_str::<Duration>(&j).map(|p| p.to_parts()).map_err(|e| e.to_string()));
+        // the other standard ways of driving the same Deserialize impl: an owned Value, a reader (no borrowed input),
+        // and JSON text with an escape sequence (the first character escaped, and the mu of microseconds)
+        let others: Vec<Result<(i16, u64), String>> = match &json {
+            Ok(j) => {
+                let esc = {
+                    let inner = &j[1..j.len() - 1];
+                    let mut it = inner.chars();
+                    let first = it.next().unwrap();
+                    format!("\"\\u{:04x}{}\"", first as u32, it.as_str().replace('μ', "\\u03bc"))
+                };
+                vec![
+                    serde_json::to_value(d).and_then(serde_json::from_value::<Duration>).map(|p| p.to_parts()).map_err(|e| format!("to_value/from_value: {e}")),
+                    serde_json::from_reader::<_, Duration>(j.as_bytes()).map(|p| p.to_parts()).map_err(|e| format!("from_reader: {e}")),
+                    serde_json::from_str::<Duration>(&esc).map(|p| p.to_parts()).map_err(|e| format!("from_str({esc}): {e}")),
+                ]
+            }
+            Err(_) => vec![],
+        };
         let e = Epoch::from_duration(d, TimeScale::TAI);
         let eh = (e.hours(), e.minutes(), e.seconds(), e.milliseconds(), e.microseconds(), e.nanoseconds());
-        (dec, subs, shown, parsed, json, back, eh)
+        (dec, subs, shown, parsed, json, back, eh, others)
     });
     let cls = format!("{},{}", if v < 0 { "negative" } else { "non-negative" }, if near_unit(v) { "near-unit-multiple" } else { "generic" });
     match r {
-        Ok((dec, subs, shown, parsed, json, back, eh)) => {
+        Ok((dec, subs, shown, parsed, json, back, eh, others)) => {
             let sign_ok = if v < 0 { dec.0 == -1 } else { dec.0 >= 0 };
             let fields_ok = (dec.1, dec.2, dec.3, dec.4, dec.5, dec.6, dec.7) == (want.1, want.2, want.3, want.4, want.5, want.6, want.7);
             let wsub: Vec<Option<i128>> = vec![
@@ -62,11 +80,13 @@ pub fn j_text(v: i128, out: &mut Local) {
                 out.viol("c11.parse_back", format!("parse(display(d))!=d,{shape},len={}", if shown.len() <= 9 { shown.len().to_string() } else { ">9".into() }), args, format!("{:?} from {shown:?}", d.to_parts()), format!("{parsed:?}"));
             } else if json.as_ref().ok() != Some(&format!("\"{wtext}\"")) || back.as_ref().ok() != Some(&d.to_parts()) {
                 out.viol("c11.serde", format!("round-trip-wrong,{cls}"), args, format!("\"{wtext}\" -> {:?}", d.to_parts()), format!("{json:?} -> {back:?}"));
+            } else if let Some(bad) = others.iter().find(|o| o.as_ref().ok() != Some(&d.to_parts())) {
+                out.viol("c11.serde", format!("other-deserializer-path-differs,{cls}"), args, format!("{:?}", d.to_parts()), format!("{bad:?}"));
             } else if (eh.0, eh.1, eh.2, eh.3, eh.4, eh.5) != (want.2, want.3, want.4, want.5, want.6, want.7) {
                 out.viol("c11.epoch_accessors", "differ-from-decomposition".into(), args, format!("{want:?}"), format!("{eh:?}"));
             } else {
                 let nt = near_unit(v) || v < 0;
-                out.ok(16, nt, ((v < 0) as u64) | ((want.1 > 0) as u64) << 1 | ((want.7 > 0) as u64) << 2 | ((want.6 > 0) as u64) << 3 | ((want.1 > 1) as u64) << 4);
+                out.ok(19, nt, ((v < 0) as u64) | ((want.1 > 0) as u64) << 1 | ((want.7 > 0) as u64) << 2 | ((want.6 > 0) as u64) << 3 | ((want.1 > 1) as u64) << 4);
                 if out.want_sample(nt) {
                     out.sample("c11.text", args, wtext, nt);
                 }
